@@ -91,7 +91,7 @@ func c09Pubsub(c *vf.Ctx) {
 	if !c.Active(sub) {
 		return
 	}
-	n := c.N(4, 40)
+	n := c.N(6, 60)
 	for i := 0; i < n; i++ {
 		if !c.Mine(sub, i) {
 			continue
@@ -154,8 +154,24 @@ func c09PubsubOne(c *vf.Ctx, sub string, i int, r *rand.Rand) string {
 		return true
 	}
 	filterB := r.Intn(2) == 0
+	// the downstream receiver's allow filter: none, only the original publisher (and A), or only the relay (and A)
+	P := EdIdent(r)
+	bMode := []string{"only-relay", "only-original-publisher", "none"}[i%3]
+	var bConsulted atomic.Int64 // consultations of B's filter for the republication (it names P, or the relay)
+	bAllow := func(p peer.ID) bool {
+		if p == P.ID || p == hR.ID() {
+			bConsulted.Add(1)
+		}
+		switch bMode {
+		case "only-original-publisher":
+			return p == P.ID || p == hA.ID()
+		case "only-relay":
+			return p == hR.ID() || p == hA.ID()
+		}
+		return true
+	}
 	rcR, err1 := announce.NewReceiver(hR, topicName, announce.WithTopic(topics[1]), announce.WithResend(true), announce.WithAllowPeer(relayAllow))
-	rcB, err2 := announce.NewReceiver(hB, topicName, announce.WithTopic(topics[2]), announce.WithFilterIPs(filterB))
+	rcB, err2 := announce.NewReceiver(hB, topicName, announce.WithTopic(topics[2]), announce.WithFilterIPs(filterB), announce.WithAllowPeer(bAllow))
 	snd, err3 := p2psender.New(nil, "", p2psender.WithTopic(topics[0]))
 	if err1 != nil || err2 != nil || err3 != nil {
 		cleanup()
@@ -183,7 +199,8 @@ func c09PubsubOne(c *vf.Ctx, sub string, i int, r *rand.Rand) string {
 		return "mesh-not-formed: no pubsub message reached both receivers within 30 s"
 	}
 	wit := func() any {
-		return map[string]any{"A_publisher_host": hA.ID().String(), "R_relay_host": hR.ID().String(), "B_receiver_host": hB.ID().String(), "filter_ips_on_B": filterB}
+		return map[string]any{"A_publisher_host": hA.ID().String(), "R_relay_host": hR.ID().String(), "B_receiver_host": hB.ID().String(), "filter_ips_on_B": filterB,
+			"allow_filter_on_B": bMode, "directly_announced_publisher": P.ID.String()}
 	}
 	c.Guard(sub, i, wit, func() {
 		// (a) a pubsub announcement from A is attributed to A and carries its addresses
@@ -216,15 +233,32 @@ func c09PubsubOne(c *vf.Ctx, sub string, i int, r *rand.Rand) string {
 			c.Fail(sub, i, "pubsub-address-filtering", fmt.Sprintf("addrs %v filter=%v", maStrings(a.Addrs), filterB), wit())
 		}
 		// (b) a direct announcement at the relay R for publisher P
-		P := EdIdent(r)
 		cid2 := c09Cid(720000 + i)
 		if err := rcR.Direct(context.Background(), cid2, peer.AddrInfo{ID: P.ID, Addrs: []multiaddr.Multiaddr{pubAddr, privAddr}}); err != nil {
 			c.Fail(sub, i, "direct-error", err.Error(), wit())
 			return
 		}
+		if bMode == "only-relay" {
+			// B allows the relay but not the original publisher: the republication is an announcement of P and must
+			// not be delivered. Decided once B's filter has been consulted for that message.
+			for w := 0; w < 4000 && bConsulted.Load() == 0; w++ {
+				time.Sleep(5 * time.Millisecond)
+			}
+			if bConsulted.Load() == 0 {
+				c.Inconclusive(sub, i, "republication-never-reached-B", "", nil)
+				return
+			}
+			time.Sleep(100 * time.Millisecond)
+			if nB := countOf(colB, func(a announce.Announce) bool { return a.Cid.Equals(cid2) }); nB != 0 {
+				c.Fail(sub, i, "republication-of-disallowed-publisher-delivered", fmt.Sprintf("B allows only the relay; the republished announcement of %s was delivered %d time(s)", P.ID, nB), wit())
+			}
+			c.Inc("pubsub_runs_completed")
+			c.Inc("pubsub_republication_of_disallowed_publisher")
+			return
+		}
 		b, got := waitFor(colB, 20*time.Second, func(a announce.Announce) bool { return a.Cid.Equals(cid2) })
 		if !got {
-			c.Fail(sub, i, "republication-not-received", "B never saw the relay's republication", wit())
+			c.Fail(sub, i, "republication-not-received", "B never saw the relay's republication (allow filter on B: "+bMode+")", wit())
 			return
 		}
 		// address filtering applies to republished announcements as to any other
@@ -271,13 +305,14 @@ func c09PubsubOne(c *vf.Ctx, sub string, i int, r *rand.Rand) string {
 			c.Fail(sub, i, "republication-delivered-not-once", fmt.Sprint(nB), wit())
 		}
 		c.Inc("pubsub_runs_completed")
+		c.Inc("pubsub_allow_filter_on_B_" + bMode)
 	})
 	rcR.Close()
 	rcB.Close()
 	snd.Close()
 	cleanup()
 	c.Eval(3)
-	c.Distinct(sub, fmt.Sprint(filterB, i))
+	c.Distinct(sub, fmt.Sprint(filterB, bMode, i))
 	if c.WantSample(sub) {
 		c.Sample(sub, wit())
 	}
